@@ -40,6 +40,11 @@ func genLightClient(cfg runCfg, e *emitter, rng *rand.Rand, withUndo bool) {
 		var cp u.Proof
 		var ch []u.Hash
 		C := map[u.Hash]bool{}
+		// a second client that remembers the complementary leaves and is updated/undone with the SAME
+		// block data objects (UpdateData, proof, targets) after the first one
+		var cp2 u.Proof
+		var ch2 []u.Hash
+		C2 := map[u.Hash]bool{}
 		var hist []lcBlock
 		sig := ""
 		remMode := rng.Intn(5) // 0 none, 1 all, 2 last only, 3/4 random
@@ -51,6 +56,7 @@ func genLightClient(cfg runCfg, e *emitter, rng *rand.Rand, withUndo bool) {
 				_ = idx
 				e.line("HONEST %s.verify %s", tag, errStr(err))
 			}
+			e.line("CACHED %s.second %s %s %s %s", tag, hs(sortedSet(C2)), hs(ch2), us(cp2.Targets), hs(cp2.Proof))
 		}
 		step := func() {
 			dels, strat := pickDels(rng, rf)
@@ -92,6 +98,29 @@ func genLightClient(cfg runCfg, e *emitter, rng *rand.Rand, withUndo bool) {
 					return
 				}
 				ch = nh
+				var rem2 []uint32
+				inRem := map[uint32]bool{}
+				for _, r := range remembers {
+					inRem[r] = true
+				}
+				for i := range adds {
+					if !inRem[uint32(i)] {
+						rem2 = append(rem2, uint32(i))
+					}
+				}
+				nh2, err := cp2.Update(ch2, adds, proof.Targets, rem2, ud)
+				if err != nil {
+					e.hfail("Proof.Update.second", "%v", err)
+					ok = false
+					return
+				}
+				ch2 = nh2
+				for _, d := range dels {
+					delete(C2, d)
+				}
+				for _, i := range rem2 {
+					C2[adds[i]] = true
+				}
 			})
 			if !ok {
 				return
@@ -130,6 +159,13 @@ func genLightClient(cfg runCfg, e *emitter, rng *rand.Rand, withUndo bool) {
 							return
 						}
 						ch = nh
+						nh2, err := cp2.Undo(uint64(len(rec.adds)), rec.numLeaves, rec.targets, rec.dels, ch2, rec.ud.ToDestroy, rec.proof)
+						if err != nil {
+							e.hfail("Proof.Undo.second", "%v", err)
+							ok = false
+							return
+						}
+						ch2 = nh2
 					})
 					if !ok {
 						break
@@ -139,6 +175,7 @@ func genLightClient(cfg runCfg, e *emitter, rng *rand.Rand, withUndo bool) {
 					// (leaves the block deleted are documented as not restored)
 					for _, a := range rec.adds {
 						delete(C, a)
+						delete(C2, a)
 					}
 					rf2 := &refForest{}
 					_ = rf2
